@@ -232,7 +232,7 @@ func (e *Engine) intrinsic(name string, fn *ssa.Function) (handler, bool) {
 		if h, ok := e.atomicIntrinsic(name, fn); ok {
 			return h, true
 		}
-	case logPkgs[pkg] || strings.HasSuffix(pkg, "/gologshim"):
+	case logPkgs[pkg] || strings.HasSuffix(pkg, "/gologshim") || strings.HasSuffix(pkg, "/canonicallog"):
 		return func(c *frame, f *ssa.Function, a []value) value { return retZero(f) }, true
 	case pkg == "context":
 		if h, ok := e.contextIntrinsic(name, fn); ok {
